@@ -91,8 +91,52 @@ class Rec:
 
 
 REC = Rec()
-STATE = {"fail_fresh": False}
+STATE = {"fail_fresh": False, "conv_faults": {}, "open_faults": {}, "created": 0}
 _MISSING = object()
+
+
+class InjectedKey(KeyError):
+    """fault injection: a KeyError raised by a converter / the cache handler"""
+
+
+class InjectedOther(OSError):
+    """fault injection: any other exception (PermissionError-like OSError of a handler, RuntimeError of a converter)"""
+
+
+def injected(kind: str, D):
+    if kind == "KeyError":
+        return InjectedKey("injected")
+    if kind == "UnknownOutputFormat":
+        return type("InjectedUnknown", (D.UnknownOutputFormat,), {})("injected")
+    return InjectedOther("injected")
+
+
+class TagBytes(bytes):
+    """what a tagged format class hands on where the real one produces `bytes`: the JSON text of the term"""
+
+    def decode(self, *a, **k):
+        r = TagStr(bytes.decode(self, *a, **k))
+        r._verif_tag = self._verif_tag
+        return r
+
+
+class TagStr(str):
+    """… where the real one produces `str` (so that `save`, `Markup(...)`, `.encode()` behave as with real data)"""
+
+    def encode(self, *a, **k):
+        r = TagBytes(str.encode(self, *a, **k))
+        r._verif_tag = self._verif_tag
+        return r
+
+
+def tagged(term, orig):
+    import json
+
+    ann = getattr(orig, "__annotations__", {}).get("return")
+    cls = TagBytes if ann in ("bytes", bytes) else TagStr
+    r = cls(json.dumps(term).encode() if cls is TagBytes else json.dumps(term))
+    r._verif_tag = term
+    return r
 
 
 class Patch:
@@ -126,6 +170,16 @@ def errname(e: BaseException, D) -> str:
         return "UnknownOutputFormat"
     if isinstance(e, InjectedRenderError):
         return "RenderError"
+    if isinstance(e, InjectedKey):
+        return "Injected:KeyError"
+    if isinstance(e, InjectedOther):
+        return "Injected:Other"
+    if type(e).__name__ == "InjectedUnknown":
+        return "Injected:UnknownOutputFormat"
+    if isinstance(e, IsADirectoryError):
+        return "Injected:Other"   # the real fault: a directory called <uuid><ext> in the cache
+    if isinstance(e, TypeError) and str(e).startswith("Cannot write format"):
+        return "TypeError"
     if isinstance(e, RuntimeError) and str(e).startswith("Diagram not in cache"):
         return "NotInCache"
     if isinstance(e, KeyError):
@@ -165,19 +219,25 @@ def install(mode: str):
                 orig = getattr(obj, attr)
                 if mode == "tag":
                     if attr == "from_cache":
-                        def f(cache, cid=cid, evname=evname):
+                        def f(cache, cid=cid, evname=evname, orig=orig):
                             REC.ev([evname, cid])
+                            if (evname, cid) in STATE["conv_faults"] and REC.enabled:
+                                raise injected(STATE["conv_faults"][(evname, cid)], D)
                             name = bytes(cache)[len(PREFIX):].decode() if bytes(cache).startswith(PREFIX) else "?"
-                            return [evname, cid, ["file", name]]
+                            return tagged([evname, cid, ["file", name]], orig)
                     else:
-                        def f(data, cid=cid, evname=evname):
+                        def f(data, cid=cid, evname=evname, orig=orig):
                             REC.ev([evname, cid])
-                            return [evname, cid, tagof(data)]
+                            if (evname, cid) in STATE["conv_faults"] and REC.enabled:
+                                raise injected(STATE["conv_faults"][(evname, cid)], D)
+                            return tagged([evname, cid, tagof(data)], orig)
                 else:
                     if attr == "convert" and obj is D.PNGFormat:
                         orig = png_stub
                     def f(data, cid=cid, evname=evname, orig=orig):
                         REC.ev([evname, cid])
+                        if (evname, cid) in STATE["conv_faults"] and REC.enabled:
+                            raise injected(STATE["conv_faults"][(evname, cid)], D)
                         return orig(data)
                 P.set(obj, attr, staticmethod(f))
         else:  # plain callable: replace every reference (module attribute, `depends` of others)
@@ -185,10 +245,14 @@ def install(mode: str):
             if mode == "tag":
                 def w(data, cid=cid):
                     REC.ev(["call", cid])
+                    if ("call", cid) in STATE["conv_faults"] and REC.enabled:
+                        raise injected(STATE["conv_faults"][("call", cid)], D)
                     return ["call", cid, tagof(data)]
             else:
                 def w(data, cid=cid, orig=orig):
                     REC.ev(["call", cid])
+                    if ("call", cid) in STATE["conv_faults"] and REC.enabled:
+                        raise injected(STATE["conv_faults"][("call", cid)], D)
                     return orig(data)
             w.__name__ = getattr(obj, "__name__", "w")
             w.__qualname__ = getattr(obj, "__qualname__", "w")
@@ -216,8 +280,10 @@ def install(mode: str):
     P.set(imm, "entry_points", entry_points)
 
     AD = D.AbstractDiagram
-    orig_rf = AD._AbstractDiagram__render_fresh
-    orig_ei = AD._AbstractDiagram__create_error_image
+    n_rf = common.find_private(AD, "_AbstractDiagram__render_fresh", callable, ("render_fresh", "fresh"))
+    n_ei = common.find_private(AD, "_AbstractDiagram__create_error_image", callable, ("error_image", "error"))
+    orig_rf = getattr(AD, n_rf)
+    orig_ei = getattr(AD, n_ei)
     orig_cd = D.Diagram._create_diagram
 
     def render_fresh(self, params):
@@ -235,12 +301,13 @@ def install(mode: str):
         return img
 
     def create_diagram(self, params):
+        STATE["created"] += 1
         if STATE["fail_fresh"]:
             raise InjectedRenderError("injected")
-        return orig_cd(self, params)
+        return orig_cd(self, {k: v for k, v in params.items() if k != "verif_param"})
 
-    P.set(AD, "_AbstractDiagram__render_fresh", render_fresh)
-    P.set(AD, "_AbstractDiagram__create_error_image", create_error_image)
+    P.set(AD, n_rf, render_fresh)
+    P.set(AD, n_ei, create_error_image)
     P.set(D.Diagram, "_create_diagram", create_diagram)
     return P
 
@@ -365,6 +432,9 @@ class World:
 
             def opened(name, *a, _orig=orig, **k):
                 REC.ev(["open", str(name)])
+                if str(name) in STATE["open_faults"] and REC.enabled:
+                    from capellambse.model import diagram as D_
+                    raise injected(STATE["open_faults"][str(name)], D_)
                 return _orig(name, *a, **k)
 
             h.open = opened
